@@ -3,6 +3,7 @@ back end), run on the REAL code: the harness file of the unit is appended to a c
 executed with `cargo test`. Every test of the harness is one obligation, labelled `bounded` in the evidence and never
 counted as proved. A failing scenario is a concrete input on the real code: its text is the counterexample."""
 import fcntl
+import hashlib
 import os
 import re
 import shutil
@@ -30,8 +31,10 @@ def run(u, repo, tier, build):
     t0 = time.time()
     os.makedirs(SCRATCH_BASE, exist_ok=True)
     os.makedirs(build, exist_ok=True)
-    # one fixed scratch path (cargo fingerprints contain the workspace path: a stable path keeps the build incremental)
-    scratch = os.path.join(SCRATCH_BASE, "bounded-" + name)
+    # ONE scratch path per build directory, shared by all bounded units (they run one at a time under the lock): cargo keys
+    # the workspace crates' artifacts by name only, so two scratch copies sharing one target directory would see each
+    # other's builds as fresh (a stale, false verdict). One copy + one target keeps the mtime fingerprints coherent.
+    scratch = os.path.join(SCRATCH_BASE, hashlib.sha1(os.path.abspath(build).encode()).hexdigest()[:10], "bounded-work")
     target = os.path.join(build, "bounded-target")
     lock = open(os.path.join(build, "bounded.lock"), "w")
     fcntl.flock(lock, fcntl.LOCK_EX)
